@@ -502,10 +502,16 @@ func init() {
 		//    { return S[a] < S[b] })` (normalised), then either `for k, … := range S { ARR[k] = … }` / `… = append(ARR, …)`, or S
 		//    is returned by the helper and the caller ranges over the helper's result in that way
 		sorts := false
+		c04sawSort = false
 		for _, fd := range curReach {
 			if c04sortsThenFills(cur, fd, curReach) {
 				sorts = true
 			}
+		}
+		if !sorts && c04sawSort {
+			// a slice of map keys IS sorted ascending, but how it reaches the slice of the reduction was not recognised: an unknown
+			// shape, not evidence that the order is the map order
+			problem("newCursor (or a helper) sorts a slice filled from a map range, but the loop that fills the reduction's slice from the sorted one was not recognised")
 		}
 		l.p("/-- `newCursor` collects the tag lines of the map `srcs`, sorts them ascending (`sort.Slice` with `<` on `tag.Line`) and")
 		l.p("fills the slice the reduction works on in that order -/")
@@ -532,14 +538,22 @@ func init() {
 
 // c04fillLoop: after position `from`, a `for k, … := range <slice>` whose body stores into `ARR[k]` or appends to a slice
 func c04fillLoop(fd *ast.FuncDecl, slice string, from token.Pos) bool {
+	return c04fillLoopX(fd, func(e ast.Expr) bool {
+		over, _ := c04unparen(e).(*ast.Ident)
+		return over != nil && over.Name == slice
+	}, from)
+}
+
+// c04fillLoopX: the same for a range expression recognised by isOver (a variable, or directly the call of the helper that
+// returns the sorted slice)
+func c04fillLoopX(fd *ast.FuncDecl, isOver func(ast.Expr) bool, from token.Pos) bool {
 	ok := false
 	ast.Inspect(fd.Body, func(n ast.Node) bool {
 		rs, isR := n.(*ast.RangeStmt)
 		if !isR || rs.Pos() < from {
 			return true
 		}
-		over, _ := c04unparen(rs.X).(*ast.Ident)
-		if over == nil || over.Name != slice {
+		if !isOver(rs.X) {
 			return true
 		}
 		key, _ := rs.Key.(*ast.Ident)
@@ -564,6 +578,10 @@ func c04fillLoop(fd *ast.FuncDecl, slice string, from token.Pos) bool {
 	})
 	return ok
 }
+
+// c04sawSort: set when some function reachable from newCursor sorts a slice ascending (`sort.Slice(S, S[a] < S[b])`) that was
+// filled inside a range loop — whether or not the way the sorted slice reaches the reduction was recognised
+var c04sawSort bool
 
 func c04sortsThenFills(p *c04pkg, fd *ast.FuncDecl, all []*ast.FuncDecl) bool {
 	slice := ""
@@ -638,6 +656,7 @@ func c04sortsThenFills(p *c04pkg, fd *ast.FuncDecl, all []*ast.FuncDecl) bool {
 	if !filled {
 		return false
 	}
+	c04sawSort = true
 	if c04fillLoop(fd, slice, sortPos) {
 		return true
 	}
@@ -677,6 +696,13 @@ func c04sortsThenFills(p *c04pkg, fd *ast.FuncDecl, all []*ast.FuncDecl) bool {
 			}
 			return true
 		})
+		// … or ranges directly over the helper's call: `for k, … := range helper(…) { ARR[k] = … }`
+		if c04fillLoopX(caller, func(e ast.Expr) bool {
+			c, ok := c04unparen(e).(*ast.CallExpr)
+			return ok && p.callee(c) == fd
+		}, token.NoPos) {
+			found = true
+		}
 		if found {
 			return true
 		}
